@@ -25,7 +25,7 @@ ASSUMPTIONS = [
     "domain lengths 2..5 (quick) / 2..6 (thorough); grid menu {0,1,2,4,7,11}",
 ]
 BOUNDS = {
-    "quick": "d in 2..4(5 for rank<=2), shapes up to rank 3, all ascending d-subsets of {0,1,2,4,7,11}, dx in {1,1/2,2}",
+    "quick": "d in 2..4(5 for rank<=2), shapes up to rank 3, all ascending d-subsets of {0,1,2,4,7,11}, dx in {1,1/2,2,1e-9}, five of the grids again in SI metres",
     "thorough": "d in 2..6, same shapes, all ascending d-subsets of {0,1,2,4,7,11,16}, dx in {1,1/2,2,1/8}",
 }
 
